@@ -51,7 +51,8 @@ def analyse_metric(repo: Repo, rep: Report, file: str, cname: str, fwd_atoms: Di
     for b, call in bufs.items():
         init_txt = unparse(call.args[1]) if len(call.args) > 1 else ""
         ok = match(call.args[1], "torch.tensor(0)") is not None or match(call.args[1], "torch.tensor(0, dtype=torch.long)") is not None or match(call.args[1], "torch.tensor(0, dtype=torch.int64)") is not None or match(call.args[1], "torch.zeros((), dtype=torch.long)") is not None
-        rep.check(ok, "ACC", f"{file}::{cname}.__init__", f"buffer {b} = {init_txt}", "integer counter starting at 0 (exact counts, no float drift)", "accumulator is not an integer counter starting at zero", node=call)
+        wrong = (not ok) and (("0.0" in init_txt) or ("float" in init_txt) or any(isinstance(x, ast.Constant) and isinstance(x.value, (int, float)) and not isinstance(x.value, bool) and x.value != 0 for x in ast.walk(call.args[1])))
+        rep.shape(ok, wrong, "ACC", f"{file}::{cname}.__init__", f"buffer {b} = {init_txt}", "integer counter starting at 0 (exact counts, no float drift)", "accumulator is not an integer counter starting at zero", node=call)
         n += 1
 
     # ---- compute: errors / max(total, 1)
@@ -226,7 +227,8 @@ def rule_blocks(repo: Repo, rep: Report) -> int:
     n = 0
     raises = [s for s in stmts_of(fi.body) if isinstance(s, ast.If) and any(isinstance(x, ast.Raise) for x in s.body) and "%" in unparse(s.test)]
     ok = len(raises) == 1 and match(raises[0].test, "_E % self.block_size != 0") is not None
-    rep.check(ok, "BLOCKS", fi, f"divisibility: {unparse(raises[0].test) if raises else '(none)'}", "a size that is not a multiple of block_size is rejected with an error", "non-divisible sizes are not rejected", node=raises[0] if raises else fi.node)
+    weakened = len(raises) == 1 and isinstance(raises[0].test, ast.BoolOp) and isinstance(raises[0].test.op, ast.And) and any(match(v_, "_E % self.block_size != 0") is not None for v_ in raises[0].test.values)
+    rep.shape(ok, weakened, "BLOCKS", fi, f"divisibility: {unparse(raises[0].test) if raises else '(none)'}", "a size that is not a multiple of block_size is rejected with an error", "non-divisible sizes are not rejected", node=raises[0] if raises else fi.node)
     n += 1
     rets = returns_of(fi.node)
     last = rets[-1]
@@ -234,21 +236,23 @@ def rule_blocks(repo: Repo, rep: Report) -> int:
 
     inl = Inliner(fi).inline(last.value)
     ok = match(inl, "data.reshape(_B, -1).reshape(_B, _E // self.block_size, self.block_size)") is not None or match(inl, "data.reshape(_B, _E // self.block_size, self.block_size)") is not None
-    rep.check(ok, "BLOCKS", fi, f"block view: {unparse(inl)[:150]}", "(batch, n // block_size, block_size): consecutive elements form a block", "blocks are not consecutive runs of block_size elements", node=last)
+    wrong_view = match(inl, "data.reshape(_B, -1).reshape(_B, self.block_size, _E // self.block_size)") is not None or match(inl, "data.reshape(_B, self.block_size, _E // self.block_size)") is not None or "transpose" in unparse(inl) or "permute" in unparse(inl)
+    rep.shape(ok, wrong_view, "BLOCKS", fi, f"block view: {unparse(inl)[:150]}", "(batch, n // block_size, block_size): consecutive elements form a block", "blocks are not consecutive runs of block_size elements", node=last)
     n += 1
     row = [r for r in rets if match(r.value, "data.reshape(batch_size, 1, -1)") is not None]
-    rep.check(len(row) >= 1, "BLOCKS", fi, "block_size None: data.reshape(batch_size, 1, -1)", "each row is one block", "row-as-block mode changed")
+    rep.shape(len(row) >= 1, False, "BLOCKS", fi, "block_size None: data.reshape(batch_size, 1, -1)", "each row is one block", "row-as-block mode changed")
     n += 1
     # both forward and update reduce with any over the last (block) axis
     for m in ("forward", "update"):
         f2 = repo.func(BLER, f"BlockErrorRate.{m}")
         anys = [c for c in ast.walk(f2.node) if isinstance(c, ast.Call) and isinstance(c.func, ast.Attribute) and c.func.attr in ("any", "all")]
         ok = len(anys) == 1 and anys[0].func.attr == "any" and any(k.arg == "dim" and unparse(k.value) == "-1" for k in anys[0].keywords)
-        rep.check(ok, "BLOCKS", f2, f"block reduction: {unparse(anys[0]) if anys else '(none)'}", "a block is in error iff any of its elements differs", "block error is not `any` over the block axis", node=anys[0] if anys else f2.node)
+        wrong_red = len(anys) == 1 and (anys[0].func.attr == "all" or any(k.arg == "dim" and unparse(k.value) not in ("-1", "2") for k in anys[0].keywords))
+        rep.shape(ok, wrong_red, "BLOCKS", f2, f"block reduction: {unparse(anys[0]) if anys else '(none)'}", "a block is in error iff any of its elements differs", "block error is not `any` over the block axis", node=anys[0] if anys else f2.node)
         n += 1
         for who in ("x", "y"):
             calls = [c for c in ast.walk(f2.node) if isinstance(c, ast.Call) and attr_chain(c.func) == "self._reshape_into_blocks" and c.args and unparse(c.args[0]) == who]
-            rep.check(len(calls) == 1, "BLOCKS", f2, f"{m}: blocks of {who} via self._reshape_into_blocks", "both arguments use the same block layout", f"{who} is not reshaped by the shared block helper", node=f2.node)
+            rep.shape(len(calls) == 1, False, "BLOCKS", f2, f"{m}: blocks of {who} via self._reshape_into_blocks", "both arguments use the same block layout", f"{who} is not reshaped by the shared block helper", node=f2.node)
             n += 1
     return n
 
